@@ -104,3 +104,32 @@ Definition run_c17_spec (s : sx) : sx :=
       end
   | _ => bad_request
   end.
+
+(* [N; cards; edges; cpds; queries; evidence] -> potential_dict of forward_inference(..., "potential") as
+   [[scope nodes; values] ...] for slices 0..T *)
+Definition run_c17_potentials (s : sx) : sx :=
+  match s with
+  | SL [sN; scards; se; sc; sq; sev] =>
+      match sx_nat sN, sx_list sx_nat scards, sx_list sx_edge se, sx_list sx_cpd sc,
+            sx_list sx_node sq, sx_evidence sev with
+      | Some N, Some cards, Some es, Some cs, Some qs, Some ev =>
+          of_res (of_list (fun f : factor Qc_sum_csr => SL [of_list (fun v => of_node (v mod N, v / N)) (fvars f);
+                                        of_list of_Qc (fvals f)]))
+                 (dbn_potentials N cards es cs qs ev)
+      | _, _, _, _, _, _ => bad_request
+      end
+  | _ => bad_request
+  end.
+
+(* [names; edges] -> [all accepted?; nodes; edges] after add_edges_from stopped at the first rejected edge *)
+Definition run_c17_graph_partial (s : sx) : sx :=
+  match s with
+  | SL [sn; se] =>
+      match sx_list sx_nat sn, sx_list sx_edge se with
+      | Some ns, Some es =>
+          let r := dbn_add_edges_partial (dbn_add_names {| gnodes := []; gedges := [] |} ns) es in
+          sx_ok (SL [of_bool (snd r); of_list of_node (gnodes (fst r)); of_list of_edge (gedges (fst r))])
+      | _, _ => bad_request
+      end
+  | _ => bad_request
+  end.
